@@ -12,6 +12,14 @@ Theorem C07_slices : forall (P : Type) (parse : N -> bytes -> result P) (nmea_hd
 Proof. exact @c07_slices. Qed.
 Print Assumptions C07_slices.
 
+(* each raw item begins with a complete preamble: b5 62, "$" + an NMEA talker byte, or d3 + a byte whose six
+   high bits are zero (protocol raw is 1, 2 or 4, never 0) *)
+Theorem C07_preambles : forall (P : Type) (parse : N -> bytes -> result P) (nmea_hdr : N -> bool) c s,
+  Forall (fun it => let p := protocol nmea_hdr (fst it) in p = 1 \/ p = 2 \/ p = 4)
+         (items (file_read_all parse nmea_hdr c s)).
+Proof. exact @c07_preambles. Qed.
+Print Assumptions C07_preambles.
+
 (* with errors not raised, iteration ends only when nothing is left unread *)
 Theorem C07_eof_exact : forall (P : Type) (parse : N -> bytes -> result P) (nmea_hdr : N -> bool) c s,
   parse_protocol_only parse -> quitonerror c <> 2 ->
